@@ -369,21 +369,24 @@ theorem strtod_trims (s : Bytes) :
 
 /-! ## non-vacuity -/
 
-/-- ␣[ s ]␍␊ ; c = d␊ k = "v;1" # t␊ k='w'␊ [e]␊ [t]␊ n = 42 (no final newline), with a UTF-8 BOM -/
+/-- ␣[ s ]␍␊ ; c = d␊ k = "v;1" # t␊ k='w'␊ e = ; n␊ f =␍␊ q=" a=b "␊ [e]␊ [t]␊ n = 42 (no final newline), with a UTF-8 BOM -/
 def sampleDoc : Doc :=
   { preamble := [⟨.entry ⟨[], [120], [], [], .none, [49], [], none⟩, .lf⟩],
     secs := [
       ⟨⟨[32], [32], [115], [32], [], .crlf⟩,
         [⟨.comment [] ⟨59, [32, 99, 32, 61, 32, 100]⟩, .lf⟩,
          ⟨.entry ⟨[], [107], [32], [32], .double, [118, 59, 49], [32], some ⟨35, [32, 116]⟩⟩, .lf⟩,
-         ⟨.entry ⟨[], [107], [], [], .single, [119], [], none⟩, .lf⟩]⟩,
+         ⟨.entry ⟨[], [107], [], [], .single, [119], [], none⟩, .lf⟩,
+         ⟨.entry ⟨[], [101], [32], [], .none, [], [32], some ⟨59, [32, 110]⟩⟩, .lf⟩,
+         ⟨.entry ⟨[], [102], [32], [], .none, [], [], none⟩, .crlf⟩,
+         ⟨.entry ⟨[], [113], [], [], .double, [32, 97, 61, 98, 32], [], none⟩, .lf⟩]⟩,
       ⟨⟨[], [], [101], [], [], .lf⟩, []⟩,
       ⟨⟨[], [], [116], [], [], .lf⟩,
         [⟨.entry ⟨[], [110], [32], [32], .none, [52, 50], [], none⟩, .eof⟩]⟩] }
 
 example : WF ⟨.utf8⟩ sampleDoc = true := by decide
-example : meaning sampleDoc = [([115], [([107], [119])]), ([116], [([110], [52, 50])])] := by decide
-example : parseView (render ⟨.utf8⟩ sampleDoc) = [([116], [([110], [52, 50])]), ([115], [([107], [119])])] :=
+example : meaning sampleDoc = [([115], [([107], [119]), ([113], [97, 61, 98])]), ([116], [([110], [52, 50])])] := by decide
+example : parseView (render ⟨.utf8⟩ sampleDoc) = [([116], [([110], [52, 50])]), ([115], [([107], [119]), ([113], [97, 61, 98])])] :=
   parse_render_partial ⟨.utf8⟩ sampleDoc (by decide)
 example : (parse f3Input = []) := by decide
 example : atoi [32, 45, 49, 50, 120] = .val (-12) := by decide
